@@ -58,9 +58,14 @@ def atom_label(t, labeller):
     if t[0] == "not":
         return atom_label(t[1], labeller)
     if t[0] == "binop":
-        a, b = t[2], t[3]
+        a, b, op = t[2], t[3], t[1]
+        # canonical orientation: a >= b is b <= a
+        if op in ("Ge", "Gt"):
+            a, b, op = b, a, {"Ge": "Le", "Gt": "Lt"}[op]
         sa, sb = val_label(a, labeller), val_label(b, labeller)
-        return "%s %s %s" % (sa, t[1], sb)
+        if op == "Eq" and sa > sb:
+            sa, sb = sb, sa
+        return "%s %s %s" % (sa, op, sb)
     if t[0] == "app":
         nm = M.short_name(t[1])
         if re.search(r"ops::Fn<.*>>::call$", t[1]) or nm.endswith("Fn::call") or nm == "call":
@@ -351,7 +356,7 @@ def analyze(ctx, want):
                 continue
             flip = bool(oneg) != bool(ineg)
             if pred == "WORD":
-                names = {"is_alphanumeric": "is_alphanumeric(ch)", "join_c": "join_c(ch)", "gcPc": "gc(ch) Eq Pc()", "gcMn": "gc(ch) Eq Mn()"}
+                names = {"is_alphanumeric": "is_alphanumeric(ch)", "join_c": "join_c(ch)", "gcPc": "Pc() Eq gc(ch)", "gcMn": "Mn() Eq gc(ch)"}
                 exp = word
             else:
                 names = {"p": "%s(ch)" % pred}
@@ -389,7 +394,7 @@ def analyze(ctx, want):
         elif kind == "Space":
             names, exp = {"p": "is_whitespace(ch)"}, (lambda e: e["p"])
         elif kind == "Word":
-            names, exp = {"is_alphanumeric": "is_alphanumeric(ch)", "join_c": "join_c(ch)", "gcPc": "gc(ch) Eq Pc()", "gcMn": "gc(ch) Eq Mn()"}, word
+            names, exp = {"is_alphanumeric": "is_alphanumeric(ch)", "join_c": "join_c(ch)", "gcPc": "Pc() Eq gc(ch)", "gcMn": "Mn() Eq gc(ch)"}, word
         else:
             ob("C08.a", "perl:known-kind:%s" % kind, False, "no specification", fn.loc())
             continue
@@ -419,11 +424,11 @@ def analyze(ctx, want):
             ob("C08.b", "literal", False, "truth table not computable: %s" % table, fn.loc())
             continue
         if quirk:
-            ok, det = compare(atoms, table, lambda e: not e["nl"] and not e["cr"], {"nl": "ch Eq '\\n'", "cr": "ch Eq '\\r'"})
+            ok, det = compare(atoms, table, lambda e: not e["nl"] and not e["cr"], {"nl": "'\\n' Eq ch", "cr": "'\\r' Eq ch"})
             got.add("dot-quirk")
             ob("C08.b", "literal:verbatim-dot-in-bracket-acts-as-dot", ok, "README-documented quirk ([.\\r\\n] = any char): " + det, fn.loc())
         else:
-            ok, det = compare(atoms, table, lambda e: e["eq"], {"eq": "ch Eq c"})
+            ok, det = compare(atoms, table, lambda e: e["eq"], {"eq": "c Eq ch"})
             got.add("plain")
             ob("C08.b", "literal:matches-only-itself", ok, det, fn.loc())
     ob("C08.b", "literal:both-cases", got == {"dot-quirk", "plain"}, "cases %s" % sorted(got), fn.loc())
@@ -445,7 +450,7 @@ def analyze(ctx, want):
             if v == "Dot":
                 clo = unwrap_ok(r)
                 atoms, table = truth_table(eval_closure(F, clo), lambda x: None) if clo[0] == "closure" else (None, "not a closure")
-                ok, det = compare(atoms, table, lambda e: not e["nl"] and not e["cr"], {"nl": "ch Eq '\\n'", "cr": "ch Eq '\\r'"}) if atoms is not None else (False, table)
+                ok, det = compare(atoms, table, lambda e: not e["nl"] and not e["cr"], {"nl": "'\\n' Eq ch", "cr": "'\\r' Eq ch"}) if atoms is not None else (False, table)
                 ob("C08.b", "ast:dot-matches-all-but-newline-and-cr", ok, det, fn.loc())
             elif v in ("Literal", "ClassUnicode", "ClassPerl", "ClassBracketed"):
                 deleg = [(c, o) for c, o in p.conds if c[0] == "isvar" and c[1][0] == "app" and "try_into" in c[1][1]]
